@@ -62,10 +62,10 @@ PROPS = {
     "C01": {
         "units": {"optimiser": ["coalesce", "shake_0", "lemma_congruences", "lemma_nested_congruence", "lemma_nested_array_congruence", "lemma_match_coalesce",
                                  "lemma_congruences_all", "lemma_same_refl", "lemma_same_trans", "lemma_group_equiv", "lemma_group_single", "lemma_merge", "lemma_be_congr", "lemma_three",
-                                 "lemma_sems_concat", "lemma_sems_defined", "lemma_has_ident_elem", "lemma_and3_concat", "lemma_or3_concat", "lemma_single", "lemma_and3_3", "lemma_or3_3"],
+                                 "lemma_sems_concat", "lemma_sems_defined", "lemma_has_ident_elem", "lemma_and3_concat", "lemma_or3_concat", "lemma_single", "lemma_and3_3", "lemma_or3_3", "lemma_match_group_same"],
                   "matrix": MATRIX_FNS, "rewrite": REWRITE_FNS, "batch": BATCH_FNS},
         "explanation": "coalesce is proved to preserve sem3 for every document (three-valued equality, so also under negation), to remove every identifier (so clearing the identifier table is sound) and never to hit its expect(); shake_0 (and/or flattening, group-of-one unwrapping) is proved to preserve sem3 for every identifier table and document, arm by arm, through flattening lemmas over and3/or3; matrix() (all 358 lines, both passes, every loop) is proved against a structural relation - every disjunct of an or-group becomes either a row whose cells are exactly its conjuncts, re-keyed to the column of their field, or stays as it is - and that relation is proved to imply that the rewritten or-group is TRUE for exactly the same documents (cell -> row -> rows -> matrix lemmas over the solver's own cache-fold semantics), with full three-valued equivalence wherever no or-group is rewritten; termination of matrix() and coalesce() is proved (decreases expression); rewrite() / rewrite_search() are proved panic-free and terminating and to return the same expression with some regex searches rebuilt (same field, cast flag, case flag and kind: rw_rel), which keeps well-formedness (lemma_rw_wf); of shake_1, the block that re-merges the plain searches of one (field, cast, case) key (slice shake_needles) is proved to add exactly one search that means 'some member matches' under the members' own case rule",
-        "assumptions": ["shake_0: termination not proved; Match arm and Nested-over-block arm are holes; double negation removal is known finding C01-KF1",
+        "assumptions": ["shake_0: termination not proved; the Nested-over-block arm is a hole; all()/of() operands are assumed to be a group or a single identifier / search / matrix / field (groups_ok); double negation removal is known finding C01-KF1",
                         "matrix(): only truth-equivalence holds for a rewritten or-group (False/Missing may swap): the contract claims it where no rewritten or-group sits under a negation (neg_safe) - the rest is known finding C01-KF2; all()/of() heads directly under a nested key are outside the claim",
                         "matrix(): shake_1 (called on the operands of all()/of()) is not under contract: sh_post is assumed; HashMap::into_iter / sort_by / map-collect / values / String == String are expression holes with the std contract stated in prelude/mxspecs.rs; the u32 field counter is assumed not to overflow",
                         "rewrite_search: that a regex with its leading/trailing '.*' removed accepts the same strings is NOT proved (the regex language is uninterpreted; RegexSetBuilder's inputs are not modelled)",
